@@ -329,6 +329,7 @@ func runC11(e *Engine, r *Report) {
 	// "each entry is delivered once": the applied index advances in the function (and critical
 	// section) that applied the entry, on every exit (decided by C02's rule set)
 	borrow(e, r, "C02", "MPT-setapplied")
+	ruleSnapshotJobExclusion(e, r)
 }
 
 func lastN(ss []string, n int) string {
